@@ -5,7 +5,7 @@
 (* -> decode again preserves sample NAMES and BANKS (volume, custom index,  *)
 (* suffix and layering are excluded by the property outside mania).         *)
 (***************************************************************************)
-EXTENDS Samples, TLC
+EXTENDS Samples, TLC, Json
 
 CONSTANT Dummy
 
@@ -19,19 +19,25 @@ ApplyPoint(s, sp) ==
 ApplyAll(smps, sp) == [i \in 1..Len(smps) |-> ApplyPoint(smps[i], sp)]
 
 Bi(n, b1, b2, cu, vo, fn) == [n |-> n, b1c |-> "num", b1 |-> b1, b2c |-> "num", b2 |-> b2, cuc |-> "num", cu |-> cu, voc |-> "num", vo |-> vo, fn |-> fn]
-Infos == {Bi(n, b1, b2, cu, vo, fn) : n \in {0, 2, 5}, b1 \in 0..3, b2 \in 0..3, cu \in {0, 1, 2}, vo \in {0, 40}, fn \in {"", "f.wav"}}
+\* (custom indices incl. a negative one, volumes incl. one above 100, a file name with a backslash)
+Infos == {Bi(n, b1, b2, cu, vo, fn) : n \in {0, 2, 5}, b1 \in {0, 2, 3}, b2 \in {0, 3}, cu \in {0, 1, 2, -1}, vo \in {0, 40, 150},
+                                      fn \in {"", "f.wav", "d\\f.wav"}}
 Points == {[bank |-> b, vol |-> v, custom |-> c] : b \in 1..3, v \in {100, 30}, c \in {0, 2}}
 
 VARIABLES bi, sound, sp, mania, done
 vars == <<bi, sound, sp, mania, done>>
-Init == bi \in Infos /\ sound \in 0..15 /\ sp \in Points /\ mania \in BOOLEAN /\ done = FALSE
-Next == ~done /\ done' = TRUE /\ UNCHANGED <<bi, sound, sp, mania>>
-Spec == Init /\ [][Next]_vars
 
 M1 == ApplyAll(ConvertSound(ReadBank(Bank0, bi, FALSE).v, sound), sp)
 EncInfo == EncBank(M1, FALSE, mania)
 EncSound == SoundOf(M1)
 M2 == ApplyAll(ConvertSound(ReadBank(Bank0, EncInfo, FALSE).v, EncSound), sp)
+
+
+Init == bi \in Infos /\ sound \in 0..15 /\ sp \in Points /\ mania \in BOOLEAN /\ done = FALSE
+Next == ~done /\ done' = TRUE /\ UNCHANGED <<bi, sound, sp, mania>>
+        /\ (Dummy = 1 => PrintT("CASE " \o ToJson([bi |-> bi, sound |-> sound, sp |-> sp, mania |-> mania, m1 |-> NamesBanks(M1),
+                                                     esnd |-> EncSound, einfo |-> EncInfo, m2 |-> NamesBanks(M2)])))
+Spec == Init /\ [][Next]_vars
 
 EncodedAccepted == ReadBank(Bank0, EncInfo, FALSE).ok
 NamesAndBanksSurvive == NamesBanks(M2) = NamesBanks(M1)
